@@ -195,6 +195,29 @@ func c12Worlds() []c12World {
 	coll("fault/qe-mrsigner-mismatch", func(w *world.World) { w.QeID.Mrsigner = strings.Repeat("cd", 32) })
 	coll("fault/qe-revoked", func(w *world.World) { w.QeID.TcbLevels[0].TcbStatus = "Revoked" })
 	{
+		// the responses carry DIFFERENT ISSUES of the root in their issuer-chain headers: an earlier, expired issue (same
+		// name and key) in some, the current one in the others. Which copies are looked at must not depend on the switches
+		oldRoot := world.MakeCert(world.CertSpec{CN: world.CNRoot, IsCA: true, Key: T.RootKey, MaxPathLen: 1, Serial: big.NewInt(0x0c12), NotBefore: world.T0.AddDate(-10, 0, 0), NotAfter: world.T0.AddDate(0, 0, -3)}, nil, T.RootKey)
+		for mask := 1; mask < 8; mask++ {
+			w := base()
+			var where []string
+			if mask&1 != 0 {
+				w.TcbHdr = map[string][]string{world.HdrTcbInfo: {world.IssuerChainHeader(w.PKI.Tcb, oldRoot)}}
+				where = append(where, "tcbinfo")
+			}
+			if mask&2 != 0 {
+				w.QeHdr = map[string][]string{world.HdrQeIdentity: {world.IssuerChainHeader(w.PKI.Tcb, oldRoot)}}
+				where = append(where, "qeidentity")
+			}
+			if mask&4 != 0 {
+				w.PckHdr = map[string][]string{world.HdrPckCrl: {world.IssuerChainHeader(w.PKI.Inter, oldRoot)}}
+				where = append(where, "pckcrl")
+			}
+			w.BuildGetter()
+			add("fault/expired-issue-of-the-root-carried-with-"+strings.Join(where, "+"), w, nil)
+		}
+	}
+	{
 		w := base()
 		w.TcbBody = world.SignedBody("tcbInfo", w.TcbRaw, F.TcbKey)
 		w.BuildGetter()
